@@ -57,6 +57,9 @@ def obligations(tier):
     for name, kw, w, k in (("WMA", dict(period=2), 1, 1), ("WMA", dict(period=3), 2, 1), ("SMA", dict(period=2), 1, None), ("EMA", dict(period=2), 1, 3), ("RMA", dict(period=2), 1, 3)):
         for late in (None, 1):
             obs.append(Ob(f"{name}{kw}/round_value=4 within {k or 'i+2'} roundings/{'signed late input' if late else 'price'}/n={w + 4}", dict(spec=["ind", name, kw], n=w + 4, tf=None, part="definition", k=k, late=late), C10.INV, fn="run_rounded", weight=20, budget_s=300))
+    # the input may be a boolean series (the candle's positive / negative flag, a pattern or threshold flag): True is 1, False 0
+    for name, kw, w in (("SMA", dict(period=2, input_value="positive"), 1), ("SMA", dict(period=3, input_value="negative"), 2), ("EMA", dict(period=2, input_value="positive"), 1), ("WMA", dict(period=2, input_value="negative"), 1)):
+        obs.append(Ob(f"{name}{kw}/average of a boolean series/n={w + 4}", dict(spec=["ind", name, kw], n=w + 4, tf=None, part="bool-average"), C10.INV, fn="run_rounded", weight=20, budget_s=300, max_paths=200000))
     # a non-default round_value: every writer of readings (calculate, calculate_index single / negative / range, recalculate,
     # live appends) stores the reading rounded to THAT many decimals
     for name, kw, w in (("SMA", dict(period=2), 1), ("EMA", dict(period=2), 1), ("RMA", dict(period=2), 1), ("WMA", dict(period=2), 1), ("VWMA", dict(period=2), 1), ("HMA", dict(period=4), 4)):
